@@ -180,6 +180,7 @@ func main() {
 			}
 		}
 		println("ssDeadlock: hangs", hang, "of", *runs)
+		println("evictMax returned:", evictMaxSlot(2*time.Second))
 	default:
 		vx.Die("unknown subcommand %s", os.Args[1])
 	}
